@@ -22,8 +22,7 @@ type MutantResult struct {
 // SelfTest applies every must-fail patch of the property to a scratch copy of the repository's working tree
 // and expects the check to report a violation. The scratch copy lives outside /repo and /verif and is removed.
 func SelfTest(id, repo string, runTests bool, only string) ([]MutantResult, error) {
-	patches, _ := filepath.Glob(filepath.Join(VerifDir, "mutants", id, "*.patch"))
-	sort.Strings(patches)
+	patches := corpusPatches(id)
 	if len(patches) == 0 {
 		return nil, nil
 	}
@@ -39,6 +38,9 @@ func SelfTest(id, repo string, runTests bool, only string) ([]MutantResult, erro
 	var results []MutantResult
 	for _, p := range patches {
 		name := strings.TrimSuffix(filepath.Base(p), ".patch")
+		if filepath.Base(p) == "patch.diff" {
+			name = "seeded:" + filepath.Base(filepath.Dir(p))
+		}
 		if only != "" && !strings.Contains(name, only) {
 			continue
 		}
@@ -74,6 +76,44 @@ func SelfTest(id, repo string, runTests bool, only string) ([]MutantResult, erro
 		}
 	}
 	return results, nil
+}
+
+// corpusPatches: the must-fail corpus of a property: hand-made mutants (/verif/mutants/<id>/*.patch) and the changes
+// seeded by independent sub-agents (/verif/seeded/*/patch.diff whose meta.json names the property)
+func corpusPatches(id string) []string {
+	patches, _ := filepath.Glob(filepath.Join(VerifDir, "mutants", id, "*.patch"))
+	sort.Strings(patches)
+	seeded, _ := filepath.Glob(filepath.Join(VerifDir, "seeded", "*", "patch.diff"))
+	sort.Strings(seeded)
+	for _, sp := range seeded {
+		b, err := os.ReadFile(filepath.Join(filepath.Dir(sp), "meta.json"))
+		if err != nil {
+			continue
+		}
+		var meta struct {
+			Property  string   `json:"property"`
+			AlsoCheck []string `json:"also_check"`
+			Missed    []string `json:"not_detected_by"`
+		}
+		if json.Unmarshal(b, &meta) != nil {
+			continue
+		}
+		use := meta.Property == id
+		for _, a := range meta.AlsoCheck {
+			if a == id {
+				use = true
+			}
+		}
+		for _, m := range meta.Missed {
+			if m == id {
+				use = false
+			}
+		}
+		if use {
+			patches = append(patches, sp)
+		}
+	}
+	return patches
 }
 
 func lastLines(s string, n int) string {
